@@ -644,3 +644,35 @@ Qed.
 
 (* non-vacuity: a hash satisfying the hypothesis, and a history on which a key moves *)
 Definition demo_vh (n i : nat) : N := N.of_nat (n * 10 + i * 37 mod 10 + 100 * i).
+
+(* ---------- kv multi-key Del ---------- *)
+Lemma kv_del_subset owner ks : forall st n x, In x (kv_del owner ks st n) -> In x (st n).
+Proof.
+  induction ks as [|a t IH]; simpl; intros st n x H; [assumption|].
+  apply IH in H. unfold kv_del1 in H. destruct (Nat.eqb n (owner a)); [|assumption].
+  apply in_remove in H. tauto.
+Qed.
+
+Lemma kv_del_owner owner ks : forall st k, In k ks -> ~ In k (kv_del owner ks st (owner k)).
+Proof.
+  induction ks as [|a t IH]; simpl; intros st k Hin; [tauto|].
+  destruct (N.eq_dec a k) as [->|Hne].
+  - intro H. apply kv_del_subset in H. unfold kv_del1 in H. rewrite Nat.eqb_refl in H.
+    apply in_remove in H. tauto.
+  - destruct Hin as [E|Hin]; [congruence|]. apply IH. assumption.
+Qed.
+
+Lemma kv_del_all owner ks st : (forall k n, In k (st n) -> n = owner k) ->
+  forall k, In k ks -> forall n, ~ In k (kv_del owner ks st n).
+Proof.
+  intros Hplaced k Hin n H. destruct (Nat.eq_dec n (owner k)) as [->|Hne].
+  - exact (kv_del_owner owner ks st k Hin H).
+  - apply kv_del_subset in H. apply Hplaced in H. congruence.
+Qed.
+
+Lemma kv_del_keeps owner ks : forall st n x, ~ In x ks -> In x (st n) -> In x (kv_del owner ks st n).
+Proof.
+  induction ks as [|a t IH]; simpl; intros st n x Hni H; [assumption|].
+  apply IH; [tauto|]. unfold kv_del1. destruct (Nat.eqb n (owner a)); [|assumption].
+  apply in_in_remove; [|assumption]. intro E. apply Hni. left. congruence.
+Qed.
